@@ -16,10 +16,11 @@ import c04
 from c04 import get_data, put_data, run_impl, eff_onesided, eff_nfft, clause_of, rel_close, ok_c, cmp_vec
 
 PID = 'C06'
-LEAN_TARGETS = ['Nitime.Props.C06', 'Nitime.Props.C06Hist']
+LEAN_TARGETS = ['Nitime.Props.C06', 'Nitime.Props.C06Hist', 'Nitime.Props.C06Block']
 RULE = ('one PRNG state drives: estimator in {periodogram_csd, multi_taper_csd fixed/adaptive, welch(get_spectra) raw and completed} x '
         '2..6 channels (pcsd/mtcsd also 1 channel and an extra leading dimension) x real/complex x n of both parities x NFFT x sides x Fs; '
         'every case is also re-run with a channel dropped, a channel added, channels permuted and (where accepted) leading dimensions flattened; '
+        'round 4, oracle-only (harness/c04big.py): (L9) periodogram_csd / multi_taper_csd (fixed, adaptive) / mtm_cross_spectrum / Welch / SpectralAnalyzer.cpsd with more than 2^13 retained bins (NFFT 2^14, 2^14+2, 2^15; also 2^13, 2^13+1), 1..9 channels and 4x5 leading dimensions, K*NFFT*M above 2^18 and 2^20, per entry against the Gram matrix of the np.fft tapered spectra, Hermitian, diag = psd, fold; every even NFFT in 2..512; (L10) channels scaled by 2^g_c, g lopsided in -500..500: entry (i,j) = 2^(g_i+g_j) x unscaled entry, Hermitian, diag = single-channel estimator, |C_ij|^2 <= C_ii C_jj, PSD after exact rescaling; '
         'distinct = distinct protocol line; non-trivial = signal not identically zero')
 ASSUMPTIONS = c04.ASSUMPTIONS + ['get_spectra(method=welch) returns only the upper triangle by documented design: the property is checked on its Hermitian completion']
 TRUSTED_EXTRA = c04.TRUSTED_EXTRA + ['numpy.linalg.eigvalsh in the oracle (monitored: min eigenvalue >= -1e-10 * largest |entry|)']
@@ -335,11 +336,18 @@ def oracle(rng, tier, seed, focus, cases=None):
             for sym, what in res:
                 for g in group:
                     fails.append(Failure(key_of(m, sym), '%s: %s' % (clause_of(m), what), {'meta': m, 'symptom': sym}, case=g))
-    return fails, {'judged': n, 'failed': len(fails), 'focus': len(focus), 'skipped': dict(SKIPPED)}
+        # round 4: oracle-only families (L9 sizes beyond the block thresholds, every even N for the Nyquist bin, L10 lopsided magnitudes)
+        import c04big
+        bigf, bigcnt = c04big.run_pool(PID, tier, seed)
+        for key, what, spc in bigf:
+            fails.append(Failure(key, what, {'big': spc, 'key': key}))
+    return fails, {'judged': n, 'failed': len(fails), 'focus': len(focus), 'skipped': dict(SKIPPED), 'oracle_only': bigcnt}
 
 
 def replay(d):
     import warnings, io, contextlib
+    if d.get('big') is not None:
+        return c04.replay(d)
     m = d['meta']
     with warnings.catch_warnings(), contextlib.redirect_stdout(io.StringIO()):
         warnings.simplefilter('ignore')
